@@ -111,6 +111,19 @@ func (ebs *endpointBridgeStorage) ReadOnly() bool {
 	return false
 }
 
+// newBridgedRequest builds the internal request. httptest.NewRequest panics
+// on a method or URL it cannot build a request from, but both are supplied by
+// the database client: report that as an error instead.
+func newBridgedRequest(method, target string, data []byte) (r *http.Request, err error) {
+	defer func() {
+		if panicValue := recover(); panicValue != nil {
+			err = fmt.Errorf("invalid method or url: %v", panicValue)
+		}
+	}()
+
+	return httptest.NewRequest(method, target, bytes.NewBuffer(data)), nil
+}
+
 func callAPI(ebr *EndpointBridgeRequest) (record.Record, error) {
 	// Add API prefix to path.
 	requestURL := path.Join(apiV1Path, ebr.Path)
@@ -143,7 +156,10 @@ func callAPI(ebr *EndpointBridgeRequest) (record.Record, error) {
 	}
 
 	// Create request and response objects.
-	r := httptest.NewRequest(ebr.Method, u.String(), bytes.NewBuffer(ebr.Data))
+	r, err := newBridgedRequest(ebr.Method, u.String(), ebr.Data)
+	if err != nil {
+		return nil, fmt.Errorf("failed to build bridged request: %w", err)
+	}
 	r.RemoteAddr = endpointBridgeRemoteAddress
 	if ebr.MimeType != "" {
 		r.Header.Set("Content-Type", ebr.MimeType)
